@@ -115,7 +115,7 @@ def prov_reg(ctx: Ctx, chk) -> None:
             n += 1
             chk.instance(rule)
             got: list[tuple[str, FuncInfo, ast.AST]] = []
-            for f in tables.chain_defs(ctx, callee, V):
+            for f in tables.chain_and_helpers(ctx, callee, V):
                 for ev, node in registry_events(ctx, f):
                     got.append((ev, f, node))
             key = f"{name}@{V}"
@@ -218,6 +218,12 @@ def guard_mut(ctx: Ctx, chk) -> None:
                     if not ok:
                         ok_all = False
                         break
+                if not ok_all and not f.name.startswith("handle_"):
+                    # a helper: the guard may dominate every call of the helper instead
+                    callers_ok, ncalls = _callers_guard(ctx, f, base, key, kind)
+                    if callers_ok and ncalls:
+                        ok_all = True
+                        why = ""
                 if ok_all:
                     chk.ok(rule, ukey, f"dominated by `{key} not in {base}` -> raise Missing{kind.capitalize()}Error({key})", ctx.loc(f, node), sample=n_uses <= 3)
                 else:
@@ -236,6 +242,28 @@ def guard_mut(ctx: Ctx, chk) -> None:
                     else:
                         chk.refute(rule, k, f"`{norm(node)}` names {got}; the error must name the missing {'node' if nm == 'MissingNodeError' else 'child'} ({want})", ctx.loc(f, node))
     chk.floor(rule, "guarded registry uses", n_uses, 10)
+
+
+def _callers_guard(ctx: Ctx, helper: FuncInfo, base: str, key: str, kind: str):
+    """Every call `cls.<helper>(…, message, …)` in handler code is dominated by the membership guard in its caller."""
+    n = 0
+    for g_ in tables.all_handler_defs(ctx):
+        calls = [c for c in ctx.own_nodes(g_) if isinstance(c, ast.Call) and isinstance(c.func, ast.Attribute) and c.func.attr == helper.name and isinstance(c.func.value, ast.Name) and c.func.value.id in ("cls", "self")]
+        if not calls:
+            continue
+        cfg = CFG(g_.node)
+        cn = Canon(ctx.I, g_)
+        msg = message_param(g_)
+        for c in calls:
+            n += 1
+            if msg is None or not any(isinstance(a, ast.Name) and a.id == msg for a in c.args):
+                return False, n
+            cnodes = cfg.nodes_where(lambda x, c=c: x.contains(c))
+            for sn in cnodes:
+                ok, _why = _dominated_by_guard(ctx, g_, cfg, sn, cn, base, key, kind)
+                if not ok:
+                    return False, n
+    return True, n
 
 
 def _stmt_of(ctx: Ctx, f: FuncInfo, node: ast.AST) -> ast.AST:
@@ -294,6 +322,17 @@ def who_reg(ctx: Ctx, chk) -> None:
             for f in fl:
                 allowed_funcs.add(f.fq)
     allowed_funcs.add("aiomysensors.persistence.Persistence.load")
+    # helpers that the reporting handlers delegate to
+    cells = tables.handler_cells(ctx)
+    for V in ctx.versions:
+        for cell, cal in cells[V].items():
+            if cal is None:
+                continue
+            defs = tables.chain_and_helpers(ctx, cal, V)
+            if any(d.fq in allowed_funcs for d in defs):
+                for d in defs:
+                    if not d.name.startswith("handle_") and d.cls is not None and "MessageHandler" in d.cls.name:
+                        allowed_funcs.add(d.fq)
     n = 0
     for f in ctx.prog.all_functions():
         if f.module.name.startswith("aiomysensors.cli"):
